@@ -165,11 +165,27 @@ def _abstract_typ(sig):
     sig["expected"], sig["observed"] = A.tclass(None if e == "None" else e), kind
 
 
+def _live_key(ir):
+    """everything the next round can see: parameters with their extension keys, returns, doc, and `_internal`"""
+    import ast as _ast
+
+    def canon(v):
+        if isinstance(v, _ast.AST):
+            return "AST:" + _ast.dump(v)
+        if isinstance(v, dict):
+            return tuple((str(k), canon(x)) for k, x in v.items())
+        if isinstance(v, (list, tuple)):
+            return tuple(canon(x) for x in v)
+        return repr(v)
+
+    return canon({k: v for k, v in ir.items()})
+
+
 def run_one(ir, fmt, style, kw, rounds=ROUNDS):
     ctx = dict(check="fixpoint", fmt=fmt, style=style)
     if fmt == "function":
         ctx["type_annotations"] = kw["type_annotations"]
-    states, cur, transitions = [], ir, 0
+    states, cur, transitions, prev_live = [], ir, 0, None
     for r in range(1, rounds + 1):
         try:
             transitions += 1
@@ -198,9 +214,11 @@ def run_one(ir, fmt, style, kw, rounds=ROUNDS):
                         v["sig"]["default_kinds"] = ",".join(sorted({A.vkind(p.get("default", O.ABSENT)) for _, p in p1}))
                         v["sig"]["doc_kinds"] = ",".join(sorted({"doc" if p.get("doc") else "nodoc" for _, p in p1}))
                 return d, "drift@%d" % r, transitions
-            if r >= 2 and states[-1] == states[-2]:
-                # self-loop reached: deterministic code => all later rounds identical; still run to ROUNDS to validate determinism
-                pass
+            if states[-1] == states[-2] and _live_key(cur) == prev_live:
+                # self-loop of the whole live object (interface, extension keys and the carried `_internal`): the code is deterministic (C10 decides
+                # that), so every later round repeats this one - the state space of this history is closed
+                return [], "fixpoint@%d" % r, transitions
+        prev_live = _live_key(cur)
     return [], "fixpoint", transitions
 
 
